@@ -91,7 +91,7 @@ Feed(i, in) ==
                                        ![i].ro = r.f, ![i].io = m.o]
                /\ Log(InToOp(i, in), [t |-> I.t + 1, taint |-> FALSE, f |-> r.f, den |-> r.den,
                                       dend |-> r.dend, deg |-> r.deg, lo |-> r.lo, hi |-> r.hi,
-                                      e |-> Eff(I.kind, in)])
+                                      ts |-> r.ts, e |-> Eff(I.kind, in)])
     /\ UNCHANGED blobs
 
 \* next() with NaN, +-inf, +-f64::MAX, a subnormal or -0.0 (fed as a one-price bar or a scalar)
@@ -215,7 +215,20 @@ Safe == \A i \in Ids : Present(i) => IndexSafe(inst[i].kind, inst[i].impl)
 InRange ==
     \A i \in Ids : (Present(i) /\ ~inst[i].taint /\ inst[i].ro # <<>> /\ DocRange(inst[i].kind) # <<>>) =>
         LET r == inst[i].ro[1].r  rg == DocRange(inst[i].kind)
-        IN IsVal(r) => (RLeq(rg[1], r) /\ RLeq(r, rg[2]))
+        IN (CmpOk(rg[1], r) /\ CmpOk(r, rg[2])) => (RLeq(rg[1], r) /\ RLeq(r, rg[2]))
+
+\* C02 lemma: the recursion equals the closed-form sum over the whole history (checked where it fits 32 bits)
+EmaLemma ==
+    \A i \in Ids : (Present(i) /\ inst[i].kind = "EMA" /\ ~inst[i].taint) =>
+        LET h == inst[i].ref.h  n == inst[i].p.n IN
+        (n <= 7 /\ Len(h) >= 1 /\ Len(h) <= 8 /\ MaxAbs(h) <= 3 /\ IsVal(inst[i].ref.e.v)) =>
+            EmaClosed(h, n) = inst[i].ref.e.v
+
+\* C09 lemma: an exponential average is a convex combination of its history
+EmaConvex ==
+    \A i \in Ids : (Present(i) /\ inst[i].kind = "EMA" /\ ~inst[i].taint /\ ~inst[i].ref.e.new) =>
+        LET v == inst[i].ref.e.v  lo == RI(inst[i].ref.lo)  hi == RI(inst[i].ref.hi) IN
+        (CmpOk(lo, v) /\ CmpOk(v, hi)) => (RLeq(lo, v) /\ RLeq(v, hi))
 
 \* C09 on the reference: dispersion >= 0, histogram = line - signal, ordered bands for m >= 0
 NonNeg ==
@@ -224,6 +237,6 @@ NonNeg ==
         /\ (K \in {"SD", "MAD", "ATR"} /\ IsVal(ro[1].r)) => ro[1].r[1] >= 0
         /\ (K \in {"MACD", "PPO"} /\ IsVal(ro[1].r) /\ IsVal(ro[2].r) /\ IsVal(ro[3].r)) =>
                 ro[3].r = RSub(ro[1].r, ro[2].r)
-        /\ (K = "KC" /\ inst[i].p.m[1] >= 0 /\ IsVal(ro[2].r) /\ IsVal(ro[3].r)) =>
+        /\ (K = "KC" /\ inst[i].p.m[1] >= 0 /\ CmpOk(ro[3].r, ro[1].r) /\ CmpOk(ro[1].r, ro[2].r)) =>
                 (RLeq(ro[3].r, ro[1].r) /\ RLeq(ro[1].r, ro[2].r))
 =============================================================================
